@@ -757,6 +757,8 @@ pub(crate) fn c11_history(kind: ShareKind, nops: usize) {
 
 thread_local! {
   static GROUPS: RefCell<Vec<(Val, Probe)>> = RefCell::new(vec![]);
+  /// per announced group of the first subscription: subscribe one more listener through a kept clone of its KeyObservable
+  static KEPT: RefCell<Vec<Box<dyn Fn(Probe)>>> = RefCell::new(vec![]);
 }
 
 struct GroupOuter<S> {
@@ -773,6 +775,8 @@ macro_rules! impl_group_outer {
         e::note(format!("group announced key={}", key.show()));
         Observer::<Val, Val>::next(&mut self.outer, key.clone());
         GROUPS.with(|gs| gs.borrow_mut().push((key, p)));
+        let kept = g.clone();
+        KEPT.with(|k| k.borrow_mut().push(Box::new(move |q: Probe| std::mem::forget(kept.clone().actual_subscribe(q)))));
         // an earlier subscriber of the same group that leaves after its first item
         let early = fresh_probe();
         let _ = g.clone().take(1).actual_subscribe(early);
@@ -804,6 +808,7 @@ fn keyfn(kind: u32, v: &Val) -> Val {
 
 pub(crate) fn c20_group_by(max_len: u32, threads_form: bool) {
   GROUPS.with(|g| g.borrow_mut().clear());
+  KEPT.with(|g| g.borrow_mut().clear());
   let kind = e::choose(4);
   let script = draw_script(max_len, true);
   e::note(format!("group_by key{} {} input [{}]", kind, if threads_form { "SubjectThreads" } else { "Subject" }, script.show()));
@@ -819,6 +824,26 @@ pub(crate) fn c20_group_by(max_len: u32, threads_form: bool) {
   if outer_take > 0 {
     e::note(format!("stream of groups cut by take({})", outer_take));
   }
+  // two more listeners join one of the groups announced so far, between two source events, through a kept clone of
+  // its KeyObservable (the group's first listener, which left after one item, still occupies its slot)
+  let mut late: Option<(usize, Probe, Probe)> = None;
+  #[allow(unused_assignments)]
+  let mut late_at = usize::MAX;
+  fn late_join(late: &mut Option<(usize, Probe, Probe)>) {
+    let n = KEPT.with(|k| k.borrow().len());
+    if n == 0 {
+      return;
+    }
+    let gi = e::choose(n as u32) as usize;
+    let (a, b) = (fresh_probe(), fresh_probe());
+    e::note(format!("two listeners join group {}", gi));
+    KEPT.with(|k| {
+      let k = k.borrow();
+      (k[gi])(a);
+      (k[gi])(b);
+    });
+    *late = Some((gi, a, b));
+  }
   if !threads_form {
     let mk = |src: Obs| src.group_by::<_, Val, Subject<'static, Val, Val>>(move |v: &Val| keyfn(kind, v));
     if hot {
@@ -828,8 +853,16 @@ pub(crate) fn c20_group_by(max_len: u32, threads_form: bool) {
         let _u = mk(cat::hot_kind(0, hk)).actual_subscribe(GroupOuter::<Subject<'static, Val, Val>> { outer, _s: Default::default() });
       }
       let _f = mk(cat::hot_kind(1, hk)).flat_map(|g| g).actual_subscribe(flat);
-      for ev in script.events() {
-        cat::feed_hot(0, &ev);
+      let evs = script.events();
+      late_at = e::choose(evs.len() as u32 + 2) as usize;
+      for (i, ev) in evs.iter().enumerate() {
+        if i == late_at {
+          late_join(&mut late);
+        }
+        cat::feed_hot(0, ev);
+      }
+      if late_at == evs.len() {
+        late_join(&mut late);
       }
       for ev in script.events() {
         cat::feed_hot(1, &ev);
@@ -851,8 +884,16 @@ pub(crate) fn c20_group_by(max_len: u32, threads_form: bool) {
         let _u = mk(cat::hot_kind_t(0, hk)).actual_subscribe(GroupOuter::<SubjectThreads<Val, Val>> { outer, _s: Default::default() });
       }
       let _f = mk(cat::hot_kind_t(1, hk)).flat_map_threads(|g| g).actual_subscribe(flat);
-      for ev in script.events() {
-        cat::feed_hot_t(0, &ev);
+      let evs = script.events();
+      late_at = e::choose(evs.len() as u32 + 2) as usize;
+      for (i, ev) in evs.iter().enumerate() {
+        if i == late_at {
+          late_join(&mut late);
+        }
+        cat::feed_hot_t(0, ev);
+      }
+      if late_at == evs.len() {
+        late_join(&mut late);
       }
       for ev in script.events() {
         cat::feed_hot_t(1, &ev);
@@ -905,6 +946,20 @@ pub(crate) fn c20_group_by(max_len: u32, threads_form: bool) {
     match model::compare(&got, &want) {
       Ok(t) => e::check(t, "group_by/group-log", || format!("group {} got [{}] expected [{}]", i, model::show_events(&got), want.show())),
       Err(why) => e::fail("group_by/group-log", || format!("{}; group {} got [{}] expected [{}]", why, i, model::show_events(&got), want.show())),
+    }
+  }
+  // the late listeners: the later items of their key, then the source's terminal
+  if let Some((gi, a, b)) = late {
+    let key = &keys[gi];
+    let later: Vec<Val> = script.items.iter().enumerate().filter(|(i, v)| *i >= late_at && keyfn(kind, v) == *key).map(|(_, v)| v.clone()).collect();
+    let joined_before_terminal = late_at <= script.items.len();
+    let want = model::Script { items: later, term: if joined_before_terminal { script.term.clone() } else { Tm::None } };
+    for (n, q) in [a, b].iter().enumerate() {
+      let got = q.events();
+      match model::compare(&got, &want) {
+        Ok(t) => e::check(t, "group_by/late-listener-log", || format!("late listener {} of group {} got [{}] expected [{}]", n, gi, model::show_events(&got), want.show())),
+        Err(why) => e::fail("group_by/late-listener-log", || format!("{}; late listener {} of group {} (joined before event {}) got [{}] expected [{}]", why, n, gi, late_at, model::show_events(&got), want.show())),
+      }
     }
   }
   // flattening the groups back reproduces the source sequence
